@@ -28,18 +28,13 @@ def expSuffix (e : Int) : List Nat :=
 
 /-! ## repr: `to_string`, `is_integer` -/
 
-/-- `is_integer(v) = (v - v.round()).abs() < f64::EPSILON`.
-    For finite `v = m·2^e` both `round` (half away from zero) and the subtraction are exact in
-    binary64 (the difference is a multiple of `2^e` of magnitude ≤ 1/2), so the test is exactly
-    "distance to the nearest integer `< 2^-52`".  Non-finite: `inf - inf` and NaN compare false. -/
+/-- `is_integer(v) = (v.fract() == 0.0)`: `fract = v - v.trunc()` is exact in binary64, so the test
+    is "finite with no fractional part"; `inf.fract()` and `NaN.fract()` are NaN, which compares false.
+    (Before commit 5be0365 this was an EPSILON window that also admitted `1 - 2^-53`.) -/
 def isInteger (bits : Nat) : Bool :=
   if !isFinite bits then false else
   let (_, m, e) := decompose bits
-  if e ≥ 0 then true else
-  let den := 2 ^ (-e).toNat
-  let r := m % den
-  let dist := if r ≤ den - r then r else den - r
-  dist * 2 ^ 52 < den
+  if e ≥ 0 then true else m % 2 ^ (-e).toNat == 0
 
 /-- `to_string(value)` -/
 def toString (bits : Nat) : List Nat :=
@@ -123,8 +118,9 @@ def isWhitespace (c : Nat) : Bool :=
   (9 ≤ c && c ≤ 13) || c = 32 || c = 0x85 || c = 0xA0 || c = 0x1680 || (0x2000 ≤ c && c ≤ 0x200A) ||
   c = 0x2028 || c = 0x2029 || c = 0x202F || c = 0x205F || c = 0x3000
 
-/-- `u8::is_ascii_whitespace`: space, `\t`, `\n`, `\x0C`, `\r` — not `\x0B` -/
-def isAsciiWhitespace (b : Nat) : Bool := b = 32 || b = 9 || b = 10 || b = 12 || b = 13
+/-- the trim predicate of `parse_bytes`: `b.is_ascii_whitespace() || b == 0x0b`, i.e. space, `\t`,
+    `\n`, `\x0B`, `\x0C`, `\r` (the vertical tab was added by commit 03089a4) -/
+def isAsciiWhitespace (b : Nat) : Bool := b = 32 || b = 9 || b = 10 || b = 12 || b = 13 || b = 11
 
 def trimWith (p : Nat → Bool) (l : List Nat) : List Nat :=
   ((l.dropWhile p).reverse.dropWhile p).reverse
@@ -170,9 +166,10 @@ def removeTrailingDecimalPoint (s : List Nat) : List Nat :=
 def maybeRemoveTrailingRedundantChars (s : List Nat) (alt : Bool) : List Nat :=
   if !alt ∧ s.contains 46 then removeTrailingDecimalPoint (removeTrailingZeros s) else s
 
-/-- `format_general`.  `format!("{:.*}", precision + 1, base)` on the *string* `base` truncates it
-    to `precision + 1` characters (which cuts a digit when `base` carries a `-`). -/
-def formatGeneral (precision bits : Nat) (upper alt alwaysShowsFract : Bool) : List Nat :=
+/-- body of `format_general` after its first line.  `format!("{:.*}", precision + 1, base)` on the
+    *string* `base` truncates it to `precision + 1` characters (which cuts a digit when `base`
+    carries a `-`). -/
+def formatGeneralCore (precision bits : Nat) (upper alt alwaysShowsFract : Bool) : List Nat :=
   if isFinite bits then
     let (base, exponent) := toExpL bits (precision - 1)
     if exponent < -4 ∨ exponent + (if alwaysShowsFract then 1 else 0) ≥ (precision : Int) then
@@ -186,6 +183,11 @@ def formatGeneral (precision bits : Nat) (upper alt alwaysShowsFract : Bool) : L
       base ++ decimalPointOrEmpty precision' alt
   else if isNan bits then formatNan upper
   else formatInf upper
+
+/-- `format_general`: `let precision = precision.max(1);` (commit 668a737: C and Python treat a
+    precision of 0 as 1 for `%g`), then the body above. -/
+def formatGeneral (precision bits : Nat) (upper alt alwaysShowsFract : Bool) : List Nat :=
+  formatGeneralCore (max precision 1) bits upper alt alwaysShowsFract
 
 /-! ## hexadecimal -/
 
@@ -215,9 +217,16 @@ def integerDecode (bits : Nat) : Nat × Int :=
   let mant := if e = 0 then fracField bits * 2 else fracField bits + 2 ^ 52
   (mant, (e : Int) - 1075)
 
+/-- the pair `to_hex` prints in its last arm: `integer_decode`, with the doubling of a subnormal's
+    mantissa undone (`if value.is_normal() { .. } else { (mantissa >> 1, exponent + 1) }`, commit
+    8617a1f; in that arm "not normal" means subnormal, i.e. exponent field 0). -/
+def hexMantExp (bits : Nat) : Nat × Int :=
+  let (mantissa, exponent) := integerDecode bits
+  if expField bits = 0 then (mantissa / 2, exponent + 1) else (mantissa, exponent)
+
 /-- `to_hex` -/
 def toHex (bits : Nat) : List Nat :=
-  let (mantissa, exponent) := integerDecode bits
+  let (mantissa, exponent) := hexMantExp bits
   let sign := if isNeg bits then [45] else []
   if isZero bits then sign ++ [48, 120, 48, 46, 48, 112, 43, 48]        -- 0x0.0p+0
   else if isInf bits then sign ++ sInf
@@ -370,14 +379,13 @@ def FracDigits (bits : Nat) : Prop :=
 def fixedDigits (bits prec : Nat) : List Nat :=
   List.replicate (prec + 1 - (natDigits (fixedInt bits prec)).length) 0 ++ natDigits (fixedInt bits prec)
 
-/-- What the round trip needs from digit generation (`PV.Dec`), per double: the shortest digits
-    denote a decimal that rounds back to the double; an `is_integer` value in the fixed range is
-    recovered from its one-decimal rendering; a non-`is_integer` value has digits after the point.
-    Evaluated on every sampled double by the check (driver op `decfacts`), not proved in general. -/
+/-- What the round trip of a NON-integer (or exponent-notation) double needs from digit generation
+    (`PV.Dec`): the shortest digits denote a decimal that rounds back to the double, and a value
+    that is not an integer has digits after the point.  (Integer-valued doubles in fixed notation
+    need nothing: `repr_roundtrip_integer`.)  Evaluated on every sampled double by the check
+    (driver op `decfacts`), not proved in general. -/
 def DecFacts (bits : Nat) : Prop :=
   ofSci (isNeg bits) (shortest bits).1 (shortest bits).2 = bits ∧
-  (((shortest bits).2 < 16 ∧ (shortest bits).2 > -5) → isInteger bits = true →
-    ofDecimal (isNeg bits) (fixedDigits bits 1) (-1) = bits) ∧
   (isInteger bits = false → FracDigits bits)
 
 instance (bits : Nat) : Decidable (FracDigits bits) := by unfold FracDigits; infer_instance
@@ -388,8 +396,8 @@ instance (bits : Nat) : Decidable (DecFacts bits) := by unfold DecFacts; infer_i
     `k` trailing zero hex digits dropped) converts exactly to the double.  Evaluated on every
     sampled double by the check (driver op `hexfacts`), not proved in general. -/
 def HexFacts (bits : Nat) : Prop :=
-  ∀ k : Nat, k ≤ 13 → (integerDecode bits).1 % 16 ^ k = 0 →
-    hexfConvert (isNeg bits) ((integerDecode bits).1 / 16 ^ k) ((integerDecode bits).2 + 4 * (k : Int)) = some bits
+  ∀ k : Nat, k ≤ 13 → (hexMantExp bits).1 % 16 ^ k = 0 →
+    hexfConvert (isNeg bits) ((hexMantExp bits).1 / 16 ^ k) ((hexMantExp bits).2 + 4 * (k : Int)) = some bits
 
 instance (bits : Nat) : Decidable (HexFacts bits) := by unfold HexFacts; infer_instance
 
